@@ -100,4 +100,4 @@ pub fn run_probe(spec: &str, args: &[OsString]) -> Option<String> {
     Some(format!("{}\t{}", show(with_val.run_inner(args)), show(as_flag.run_inner(args))))
 }
 
-corpus!(g1, g2, g3, p1, p2, p3, p4, p5, c1, c2, c3, v1, v2, v3, o1, o2, a1, a2, a3, e1, j1, k1, k2, h1, h2, kc, k3, k4, c4, g4, o3, a4, pt, pp, k5, hd, c5, c6, c7, c8, am, c9, f1, f2, un, hr, k6, gh, f3, x1, x2, x4, pj, kv, p6, cr, fc, ka, a5, ut, fu);
+corpus!(g1, g2, g3, p1, p2, p3, p4, p5, c1, c2, c3, v1, v2, v3, o1, o2, a1, a2, a3, e1, j1, k1, k2, h1, h2, kc, k3, k4, c4, g4, o3, a4, pt, pp, k5, hd, c5, c6, c7, c8, am, c9, f1, f2, un, hr, k6, gh, f3, x1, x2, x4, pj, kv, p6, cr, fc, ka, a5, ut, fu, gd, eg, a6, a7);
